@@ -140,6 +140,50 @@ func c02Scenario(name string, unbonding time.Duration, tier string, budgets []in
 	}
 }
 
+// c02LastAsset: pending unbondings must still be paid (and slashed) after governance deleted their asset - including
+// the case where no alliance asset is left at all.
+func c02LastAsset(tier string) *engine.Scenario {
+	cfg := world.DefaultConfig()
+	cfg.Assets = []world.AssetCfg{{Denom: "aaa", Weight: "1", Min: "0", Max: "5", TakeRate: "0"}}
+	cfg.ExtraDenoms = []string{"aaa"}
+	seed := []world.Op{opDel(0, 0, "aaa", "1000"), opDel(1, 1, "aaa", "500")}
+	ops := func(n *engine.Node) []world.Op {
+		var ops []world.Op
+		s := n.Snap()
+		for _, p := range s.Pos {
+			ops = append(ops, world.Op{K: world.KUndelegateAll, D: p.D, V: p.V, Denom: "aaa", Class: ClsUser})
+			ops = append(ops, world.Op{K: world.KUndelegate, D: p.D, V: p.V, Denom: "aaa", Amt: "7", Class: ClsUser})
+		}
+		if a, ok := s.Assets["aaa"]; ok && a.TotalTokens.IsZero() {
+			ops = append(ops, world.Op{K: world.KGovDelete, Denom: "aaa", Class: ClsGov, Args: map[string]string{"signer": "authority"}})
+		}
+		if _, ok := s.Assets["aaa"]; !ok {
+			ops = append(ops, world.Op{K: world.KGovCreate, Denom: "aaa", Class: ClsGov, Args: govArgs("authority", "1", "0,5", "0", "1", 0, false)})
+		}
+		ops = append(ops, world.Op{K: world.KSlash, V: 0, F: "0.333333333333333333", Class: ClsSlash})
+		for _, dt := range dts(1, 3) {
+			ops = append(ops, world.Op{K: world.KBlock, Dt: int64(dt), Class: ClsBlock})
+		}
+		return ops
+	}
+	step := func(x *engine.Exec) []engine.Failure {
+		if !x.Res.Rejected && x.Op.K == world.KGovDelete {
+			x.Cnt.Inc("asset.deleted_with_pending_unbondings")
+		}
+		if !x.Res.Rejected && x.Op.K == world.KBlock && len(x.Prev.Snap().Denoms) == 0 && len(x.Prev.Snap().Unb) > len(x.Next.Snap().Unb) {
+			x.Cnt.Inc("payout.with_no_asset_left")
+		}
+		return c02Step(x)
+	}
+	return &engine.Scenario{
+		Property: "C02", Name: "c02-asset-deleted", Cfg: cfg, Stores: world.ModuleStores,
+		Seeds: [][]world.Op{seed}, ClassNames: classNames, Budgets: tierPick(tier, []int{3, 1, 0, 4, 1}, []int{4, 1, 0, 5, 2}), MaxDepth: tierPick(tier, 8, 10),
+		NewRef: func(w *world.World, root *engine.Node) engine.Ref { return newPendRef() },
+		Ops:    ops, Step: step, SeedStep: true,
+		Required: []string{"asset.deleted_with_pending_unbondings", "payout.with_no_asset_left", "payouts"},
+	}
+}
+
 func init() {
 	register(&Property{
 		ID:    "C02",
@@ -147,11 +191,13 @@ func init() {
 		Scenarios: func(tier string) []*engine.Scenario {
 			if tier == "thorough" {
 				return []*engine.Scenario{
+					c02LastAsset(tier),
 					c02Scenario("c02-unbonding3u", 3*U, tier, []int{4, 2, 1, 5, 0}, 10),
 					c02Scenario("c02-unbonding1u", 1*U, tier, []int{4, 2, 1, 4, 0}, 9),
 				}
 			}
 			return []*engine.Scenario{
+				c02LastAsset(tier),
 				c02Scenario("c02-unbonding3u", 3*U, tier, []int{3, 1, 1, 3, 0}, 6),
 				c02Scenario("c02-unbonding1u", 1*U, tier, []int{3, 1, 1, 3, 0}, 6),
 			}
